@@ -296,6 +296,25 @@ pub fn check_crowded(c: &CrowdCase, st: &mut Stats) -> Result<(), Viol> {
         log.push(format!("viewer c{}: NAMES {} entries, WHO {} entries", viewer, nm.len(), wh.len()));
         (nm, wh)
     };
+    // comments of every size: none, short, or long multi-byte text around the advertised
+    // KICKLEN / TOPICLEN of 1000 bytes at every phase (only who sees the announcement is compared,
+    // never the text, so a server that cuts the comment at a character boundary stays silent)
+    fn comment(s: &mut S) -> String {
+        match s.pick(10) {
+            0..=4 => String::new(),
+            5 | 6 => " :bye now".to_string(),
+            _ => {
+                let ch = ["\u{e9}", "\u{65e5}", "\u{1f600}"][s.pick(3)];
+                let total = [400usize, 996, 1000, 1004, 1300][s.pick(5)];
+                let lead = s.pick(4);
+                let mut t = "a".repeat(lead);
+                while t.len() < total {
+                    t.push_str(ch);
+                }
+                format!(" :{}", t)
+            }
+        }
+    }
     let rounds = 2 + s.pick(4);
     for r in 0..=rounds {
         let truth: BTreeSet<String> = members.iter().map(|i| nick[*i].clone()).collect();
@@ -365,12 +384,12 @@ pub fn check_crowded(c: &CrowdCase, st: &mut Stats) -> Result<(), Viol> {
             let i = s.pick(n - 1);
             match s.pick(4) {
                 0 if members.contains(&i) && i != 0 => {
-                    w.send_line(i, "PART #big");
+                    w.send_line(i, &format!("PART #big{}", comment(&mut s)));
                     members.remove(&i);
                     log.push(format!("{} parts", nick[i]));
                 }
                 1 if members.contains(&i) && i != 0 => {
-                    w.send_line(0, &format!("KICK #big {}", nick[i]));
+                    w.send_line(0, &format!("KICK #big {}{}", nick[i], comment(&mut s)));
                     members.remove(&i);
                     log.push(format!("{} kicked", nick[i]));
                 }
@@ -422,7 +441,8 @@ pub fn check_crowded(c: &CrowdCase, st: &mut Stats) -> Result<(), Viol> {
     let victims: Vec<usize> = members.iter().cloned().filter(|i| *i > 1).take(20 + s.pick(25)).collect();
     if victims.len() >= 2 && members.contains(&1) {
         let names: Vec<String> = victims.iter().map(|i| nick[*i].clone()).collect();
-        w.send_line(0, &format!("KICK #big {} :all out", names.join(",")));
+        let cm = comment(&mut s);
+        w.send_line(0, &format!("KICK #big {}{}", names.join(","), if cm.is_empty() { " :all out".to_string() } else { cm }));
         w.settle();
         w.settle();
         let ls = w.drain(1);
